@@ -30,3 +30,5 @@ pub mod time;
 pub mod unix;
 #[cfg(tiny_std_verif)]
 pub mod verif;
+#[cfg(all(tiny_std_verif, feature = "allocator-provided"))]
+pub mod verif_alloc;
